@@ -51,6 +51,10 @@ def probes():
     texts.append(render.render({"dur": "1w", "resources": [{"id": "r1", "rate": 30.0}],
                                 "tasks": [{"id": "g", "limits": {"dailymax": "2h"}, "children": [T("a", 240, prio=900), T("x", 120, sched="alap", end="2025-01-07-17:00")]},
                                           T("z", 60, limits={"weeklymax": "1h"}), T("z2", 600, "r1", limits={"dailymax": "1h"})], "reports": [rep]}))
+    # two variants of probe 0 that share its window and resolution and differ in ONE calendar input each: a cache kept across
+    # projects and keyed by less than everything the calendar depends on shows when they follow probe 0 (or each other)
+    texts.append(render.render({**ps[0], "pwh": [("mon - fri", ["8:00 - 12:00"])]}))
+    texts.append(render.render({**ps[0], "vacations": [("2025-01-07", "2025-01-09")]}))
     return texts
 
 
